@@ -21,6 +21,17 @@ WEIGHTS = [0, 1, 1, 2, 3, 4, 5, 6, 8, 9, 12, 15, 97, 100, 1000, 4096]
 
 def gen(rng, tier):
     n_scen = {"quick": 300, "thorough": 3000, "search": 400}.get(tier, 300)
+    # concurrent callers: many goroutines hammering NextServer on a pool with unequal / zero weights;
+    # a selection that is not atomic loses iterator updates and the combined counts leave the window law
+    for _ in range({"quick": 24, "thorough": 120, "search": 40}.get(tier, 24)):
+        lines = ["cfg rr"]
+        ws = rng.choice([[5, 1, 0], [3, 2], [7, 1, 1, 0], [2, 4, 6, 0, 1], [1, 1, 1], [97, 1], [4, 0, 0, 3]])
+        for i, w in enumerate(ws):
+            lines += ["upsert k%d 1" % i, "upsert k%d %d" % (i, w)]
+        for _ in range(rng.randint(2, 4)):
+            lines.append("pnext 16 %d" % rng.choice([500, 1500, 3000]))
+            lines += ["next"] * (2 * sum(ws))
+        yield lines
     for _ in range(n_scen):
         lines = ["cfg rr"]
         nkeys = rng.randint(1, 8)
